@@ -1,6 +1,8 @@
 """C08 - bad input and bad grammars are reported as TatSu errors at valid positions."""
 from __future__ import annotations
 
+import contextlib
+import io
 import sys
 from pathlib import Path
 
@@ -73,12 +75,21 @@ UNI = ['a', 'b', '1', ' ', '\n', '\r', '\r\n', '\t', '\x00', '\x0b', '\x1c', '²
        'true', '-', '_', '.', '"', "'", '\\', '(', ')']
 
 
+EOL = ('call', '$->')      # the end-of-line expression; enginelib's printer writes the name of a call verbatim
+
+
 def with_metas(rng, e):
     k = E.kind(e)
+    if k == 'pat' and not G.surely_consumes(e) and rng.random() < 0.25:
+        return EOL      # $-> may succeed without consuming (at the end of the text): it only ever stands for an element that may too,
+        #                 so the generator's guarantee (no left recursion, no unbounded recursion) is kept
     if k in ('tok', 'pat') and rng.random() < 0.25:
         return ('meta', rng.choice(['int', 'uint', 'float', 'bool', 'name']))
     if k in ('seq', 'choice'):
-        return (k, [with_metas(rng, x) for x in e[1]])
+        xs = [with_metas(rng, x) for x in e[1]]
+        if k == 'seq' and rng.random() < 0.08:
+            xs.insert(rng.randint(0, len(xs)), EOL)     # an extra element never removes consumption
+        return (k, xs)
     if k in ('group', 'skipgroup', 'opt', 'skipto'):
         return (k, with_metas(rng, e[1]))
     if k == 'rep':
@@ -120,60 +131,408 @@ def check_failure(col, exc, text, where, case):
                           {'oracle': 'failure lineinfo', 'case': case, 'pos': pos, 'info': str(info)[:300]})
 
 
-def shard_engine(col, shard_i, ngrammars, ninputs):
+# ---- rule shapes: everything the rule header of the grammar language accepts, on EVERY rule (the start rule included) ----
+DECORATORS = ['name', 'isname', 'nomemo', 'nostak']
+RULE_PARAMS = ['(A)', '(A, b=1)', '[A]', '(b=1)', '::A', "('x', 2)", '(A::B)']
+DEF_TOKENS = ['=', '=', ':', ':=', '::=']
+
+
+def shape_rules(rng, g):
+    """Decorators (@name @isname @nomemo @nostak, alone and combined), rule parameters, the alternative definition
+    tokens, an @override re-definition and a based rule (`ext < base`), each on rules chosen at random."""
+    rules = g['rules']
+    shapes = [{} for _ in rules]
+    if rng.random() < 0.6:
+        for i, (n, d, e) in enumerate(rules):
+            if rng.random() < 0.45:
+                rules[i] = (n, list(d) + rng.sample(DECORATORS, rng.choice([1, 1, 2])), e)
+            if rng.random() < 0.2:
+                shapes[i]['params'] = rng.choice(RULE_PARAMS)
+            if rng.random() < 0.15 and shapes[i].get('params') != '::A':
+                shapes[i]['def'] = rng.choice(DEF_TOKENS)
+        if rng.random() < 0.15:
+            n, d, e = rules[-1]      # the last rule calls no later rule: re-defining it with a leaf keeps the grammar well-founded
+            rules.append((n, ['override'] + rng.sample(DECORATORS, rng.choice([0, 0, 1])), rng.choice([('tok', 'a'), ('pat', r'[a-z]+'), ('pat', 'x*')])))
+            shapes.append({})
+        if rng.random() < 0.15:
+            base = rules[-1][0]
+            rules.append(('ext', rng.sample(DECORATORS, rng.choice([0, 0, 1])), rng.choice([('tok', 'b'), ('opt', ('tok', ',')), 'eof'])))
+            shapes.append({'base': base})
+        if any('name' in d or 'isname' in d for _, d, _ in rules) and rng.random() < 0.6:
+            g['keywords'] = rng.sample(['if', 'x', 'a', 'true', 'ab'], 2)
+    g['shapes'] = shapes
+    return g
+
+
+# ---- scanner configuration: the three skipping patterns, each with the ways it can match the EMPTY string ----
+WS_POOL = ['[ ]*', r'\s*', 'x*', r'\s+', r'[ \t]+', r'[\s,]*', r'(\s)*', '(?:)', r'(?m)^', r'\b', '', None]
+COMMENTS_POOL = [r'/\*(?:.|\n)*?\*/', r'\(\*((?:.|\n)*?)\*\)', r'(?:/\*(?:.|\n)*?\*/)?', r'(?s)/\*.*?\*/|', r'(/\*\*/)*', r'/\*(.*?)\*/', r'(?=/)', '']
+EOL_POOL = ['#.*', r'#[^\n]*', '(?m)#.*$', r'#([^\n]*)', r'(?:#[^\n]*)?', '(#.*)?', '#*', '(?m)$', '(?=#)', r'//.*|#.*', r'(?://|#)([^\n]*)', '']
+COMMENT_BITS = ['#', '# ', '//', '/*', '*/', '/**/', '(*', '*)', '#\n']
+
+
+def scanner_settings(rng, directive=False):
+    st = {}
+    if rng.random() < 0.5:
+        st['whitespace'] = rng.choice(WS_POOL)
+    if rng.random() < 0.6:
+        st['comments'] = rng.choice(COMMENTS_POOL)
+    if rng.random() < 0.6:
+        st['eol_comments'] = rng.choice(EOL_POOL)
+    if rng.random() < 0.2:
+        st['nameguard'] = rng.random() < 0.5
+    if rng.random() < 0.2:
+        st['ignorecase'] = rng.random() < 0.6
+    if rng.random() < 0.15:
+        st['namechars'] = rng.choice(['-', '_-', '$', '+'])
+    if directive:
+        st = {k: v for k, v in st.items() if not (k in ('comments', 'eol_comments') and not v)}
+    return st
+
+
+def engine_settings(rng, g):
+    st = {}
+    if rng.random() < 0.15:
+        st['memoization'] = False
+    if rng.random() < 0.15:
+        st['left_recursion'] = False
+    if rng.random() < 0.25 and len(g['rules']) > 1:
+        st['start'] = rng.choice(g['rules'][1:])[0]
+    if rng.random() < 0.08:
+        # the console tracer renders the rule stack, the position and the lookahead line at every event
+        st.update(trace=True, colorize=rng.random() < 0.5)
+        if rng.random() < 0.5:
+            st['trace_filename'] = True
+        if rng.random() < 0.3:
+            st['trace_length'] = rng.choice([0, 1, 8])
+    return st
+
+
+def render(g):
+    """Grammar text with the rule shapes and all directives (enginelib.grammar_text prints plain `name = exp ;` rules only)."""
+    out = []
+    for name, value in g.get('directives', {}).items():
+        if name in ('whitespace', 'comments', 'eol_comments'):
+            if value is None:
+                out.append(f'@@{name} :: None')
+            elif '/' in value:
+                assert '"' not in value
+                out.append(f'@@{name} :: ?"{value}"')
+            else:
+                out.append(f'@@{name} :: /{value}/')
+        elif name == 'namechars':
+            out.append(f"@@namechars :: '{value}'")
+        else:
+            out.append(f'@@{name} :: {value}')
+    if g.get('keywords'):
+        out.append('@@keyword :: ' + ' '.join(g['keywords']))
+    shapes = g.get('shapes') or [{} for _ in g['rules']]
+    for (name, decorators, e), sh in zip(g['rules'], shapes):
+        for d in decorators:
+            out.append('@' + d)
+        head = name + sh.get('params', '') + (' < ' + sh['base'] if sh.get('base') else '')
+        out.append(f'{head} {sh.get("def", "=")} {E.to_text(e, "top")} ;')
+    return '\n'.join(out) + '\n'
+
+
+_models: dict = {}
+_parsers: dict = {}
+
+
+def compile_text(txt):
     import tatsu
+    if txt not in _models:
+        try:
+            m = R.with_timeout(lambda: tatsu.compile(txt, name='G'), 20)
+            if isinstance(m, tuple):
+                m = ('compile-timeout', '')
+        except RecursionError:
+            m = ('compile-recursion', '')
+        except Exception as e:  # noqa
+            m = ('compile-error', type(e).__name__, str(e)[:200])
+        _models[txt] = m
+    return _models[txt]
+
+
+def generated_parser(txt):
+    """An instance of the parser class generated from the grammar text (the other way the property's parses are run)."""
+    import tatsu
+    if txt not in _parsers:
+        try:
+            src = R.with_timeout(lambda: tatsu.to_python_sourcecode(txt, name='G'), 30)
+            if isinstance(src, tuple):
+                res = ('codegen-timeout', '')
+            else:
+                ns: dict = {}
+                exec(compile(src, '<generated G>', 'exec'), ns)
+                res = ns['GParser']()
+        except RecursionError:
+            res = ('codegen-recursion', '')
+        except Exception as e:  # noqa
+            res = ('codegen-error', type(e).__name__, str(e)[:200])
+        _parsers[txt] = res
+    return _parsers[txt]
+
+
+def run_variant(target, text, v, seconds=5):
+    """One parse; v = {'input': 'text'|'textlines'|'buffer', 'input_cfg': {..}, 'parse_kw': {..}}. -> (class, exception)"""
     from tatsu.exceptions import TatSuException
     from tatsu.input.buffer import Buffer
+    from tatsu.input.textlines import TextLines
+
+    def run():
+        try:
+            if v['input'] == 'text':
+                inp = text
+            else:
+                inp = (Buffer if v['input'] == 'buffer' else TextLines)(text, **v.get('input_cfg', {}))
+            with contextlib.redirect_stderr(io.StringIO()):     # the trace goes to stderr
+                target.parse(inp, **v.get('parse_kw', {}))
+            return ('ok', None)
+        except TatSuException as e:
+            return ('tatsu', e)
+        except RecursionError as e:
+            return ('recursion', e)
+        except Exception as e:  # noqa
+            return ('foreign', e)
+    return R.with_timeout(run, seconds)
+
+
+def variant_class(v):
+    """The shape class of a parse configuration, for signatures: which settings travel by which channel, and which of the
+    skipping patterns can match the empty string."""
+    import re as _re
+    parts = []
+    for chan in ('input_cfg', 'parse_kw'):
+        for k in sorted(v.get(chan, {})):
+            if k == 'parseinfo':
+                continue
+            val = v[chan][k]
+            tag = k
+            if k in ('whitespace', 'comments', 'eol_comments'):
+                tag += '~empty' if (isinstance(val, str) and val and _re.compile(val).match('') is not None) else ''
+            parts.append(('in.' if chan == 'input_cfg' else 'kw.') + tag)
+    return ','.join(parts)
+
+
+def shrink_variant(target, text, v, same, budget=12):
+    """Drop settings (and shorten the text) while the same outcome class / exception type stays."""
+    changed = True
+    while changed and budget > 0:
+        changed = False
+        for chan in ('input_cfg', 'parse_kw'):
+            for k in sorted(v.get(chan, {})):
+                if budget <= 0:
+                    break
+                vv = dict(v)
+                vv[chan] = {a: b for a, b in v[chan].items() if a != k}
+                budget -= 1
+                if same(target, text, vv):
+                    v, changed = vv, True
+        for t in ('', text[:len(text) // 2], text[len(text) // 2:]):
+            if budget > 0 and len(t) < len(text):
+                budget -= 1
+                if same(target, t, v):
+                    text, changed = t, True
+                    break
+    return text, v
+
+
+def shrink_shapes(g, tname, text, v, same, budget=24):
+    """Drop decorators, parameters, definition tokens, the @override / based rules and directives one at a time while the
+    failure stays the same; -> (grammar, its text, its compiled model / generated parser)."""
+    import copy
+
+    def build(gg):
+        txt = render(gg)
+        t = compile_text(txt)
+        if not isinstance(t, tuple) and tname == 'generated':
+            t = generated_parser(txt)
+        return None if isinstance(t, tuple) else (txt, t)
+
+    best = (g, render(g), None)
+    plain = {'rules': [(n, [], e) for (n, d, e), sh in zip(g['rules'], g['shapes']) if 'override' not in d and not sh.get('base')],
+             'directives': {}, 'keywords': []}
+    plain['shapes'] = [{} for _ in plain['rules']]
+    if render(plain) != best[1]:        # first everything at once: most failures of a configuration do not depend on the rule headers
+        budget -= 1
+        built = build(plain)
+        if built is not None and same(built[1], text, v):
+            return (plain, built[0], built[1])
+    changed = True
+    while changed and budget > 0:
+        changed = False
+        g0 = best[0]
+        cands = []
+        for i, (n, d, e) in enumerate(g0['rules']):
+            for x in d:
+                if x != 'override':
+                    cands.append(('deco', i, x))
+            sh = g0['shapes'][i]
+            for key in ('params', 'def'):
+                if key in sh:
+                    cands.append(('shape', i, key))
+            if 'override' in d or sh.get('base'):
+                cands.append(('rule', i, None))
+        cands += [('directive', None, k) for k in g0.get('directives', {})] + ([('keywords', None, None)] if g0.get('keywords') else [])
+        for what, i, x in cands:
+            if budget <= 0:
+                break
+            gg = copy.deepcopy(best[0])
+            if what == 'deco':
+                n, d, e = gg['rules'][i]
+                gg['rules'][i] = (n, [y for y in d if y != x], e)
+            elif what == 'shape':
+                del gg['shapes'][i][x]
+            elif what == 'rule':
+                del gg['rules'][i]
+                del gg['shapes'][i]
+            elif what == 'directive':
+                del gg['directives'][x]
+            else:
+                gg['keywords'] = []
+            if render(gg) == best[1]:
+                continue
+            budget -= 1
+            built = build(gg)
+            if built is not None and same(built[1], text, v):
+                best = (gg, built[0], built[1])
+                changed = True
+                break
+    return best
+
+
+def judge(col, target, tname, g, gtext, text, v, lrec=False):
+    out = run_variant(target, text, v)
+    kind = v['input'] if v['input'] != 'textlines' else 'textlines-object'
+    col.count(f'engine.{tname}.{kind}.{out[0]}')
+    if out[0] in ('ok',):
+        return
+    if lrec and out[0] in ('recursion', 'foreign'):
+        # a left-recursive grammar (only the mutated texts can be one): deep recursion, and what an interpreter-level
+        # RecursionError leaves behind while it unwinds, is outside the property
+        col.count(f'engine.{tname}.left-recursive-grammar-exempt')
+        return
+    where = kind if tname == 'model' else f'{tname}:{kind}'
+    if out[0] == 'tatsu':
+        check_failure(col, out[1], text, where, {'grammar': gtext, 'text': text, 'variant': repr(v)})
+        return
+    cls = out[0]
+    excname = type(out[1]).__name__ if out[1] is not None else 'timeout'
+    hang = cls == 'timeout'
+
+    def same(tg, t, vv):
+        o = run_variant(tg, t, vv, 2)
+        return o[0] == cls and (hang or type(o[1]).__name__ == excname)
+    stext, sv = shrink_variant(target, text, v, same, budget=6 if hang else 14)
+    sgtext, gclass = gtext, ''
+    if g is not None:
+        sg, sgtext, starget = shrink_shapes(g, tname, stext, sv, same, budget=4 if hang else 24)
+        gclass = grammar_class(sg)
+        if starget is not None and not hang:
+            stext, sv = shrink_variant(starget, stext, sv, same, budget=8)
+    case = {'grammar': sgtext, 'text': stext, 'target': tname, 'variant': repr(sv),
+            'original': {'grammar': gtext, 'text': text, 'variant': repr(v)}}
+    vc = variant_class(sv)
+    tail = (':' + vc if vc else '') + (':' + gclass if gclass else '')
+    if hang:
+        col.hangs = getattr(col, 'hangs', 0) + 1
+        col.violation(f'oracle:hang:{where}{tail}', 'a parse does not terminate', {'oracle': 'no hang', 'case': case})
+    elif cls == 'foreign':
+        col.violation(f'oracle:foreign-exception:{where}:{excname}{tail}', f'parse raised {excname}, not a TatSu error',
+                      {'oracle': 'only TatSu exceptions', 'case': case, 'exception': repr(out[1])[:300]})
+    elif cls == 'recursion':
+        col.violation(f'oracle:recursion:{where}{tail}', 'unbounded recursion on a non-left-recursive grammar',
+                      {'oracle': 'bounded recursion', 'case': case})
+
+
+def grammar_class(g):
+    """Shape class of the rule headers, for signatures (empty for plain grammars)."""
+    sh = g.get('shapes') or []
+    tags = set()
+    for i, ((n, d, e), s) in enumerate(zip(g['rules'], sh)):
+        for x in d:
+            tags.add(('start@' if i == 0 else '@') + x)
+        if s.get('params'):
+            tags.add('params')
+        if s.get('base'):
+            tags.add('based')
+    return '+'.join(sorted(tags))
+
+
+def gen_text(rng, comments):
+    pool = UNI + COMMENT_BITS * 2 if comments else UNI
+    return ''.join(rng.choice(pool) for _ in range(rng.randint(0, 8)))
+
+
+def shard_engine(col, shard_i, ngrammars, ninputs):
     rng = col.rng
     for gi in range(ngrammars):
         g = G.gen_grammar(rng, G.GenCfg(), depth=rng.choice([2, 3]))
         g['rules'] = [(n, d, with_metas(rng, e)) for n, d, e in g['rules']]
-        if rng.random() < 0.15:
+        shape_rules(rng, g)
+        r = rng.random()
+        if r < 0.15:
             g['directives']['whitespace'] = rng.choice(['[ ]*', r'\s*', 'x*'])     # patterns that can match empty
+        elif r < 0.35:
+            g['directives'].update(scanner_settings(rng, directive=True))
         if rng.random() < 0.1:
-            g['directives']['eol_comments'] = rng.choice(['#.*', '(?m)#.*$', ''])
-        gtext = E.grammar_text(g)
-        m = R.compile_grammar(g)
+            g['directives']['eol_comments'] = rng.choice(['#.*', '(?m)#.*$'])
+        for name in ('left_recursion', 'memoization', 'parseinfo'):
+            if rng.random() < 0.05:
+                g['directives'][name] = rng.choice(['True', 'False'])
+        gtext = render(g)
+        gclass = grammar_class(g)
+        for t in (gclass.split('+') if gclass else ['plain']):
+            col.count('grammar.shape.' + t)
+        m = compile_text(gtext)
         if isinstance(m, tuple):
             col.count('grammar.' + m[0])
             if m[0] in ('compile-timeout', 'compile-recursion') or (m[0] == 'compile-error' and m[1] not in TATSU_NAMES()):
                 col.violation(f'oracle:compile:{m[0]}:{m[1] if len(m) > 1 else ""}', 'compiling a generated grammar raised a foreign exception / hung',
                               {'oracle': 'compile raises only TatSu errors', 'grammar': gtext, 'outcome': m})
             continue
+        col.count('grammar.compiled')
+        p = None
+        if rng.random() < 0.5:
+            p = generated_parser(gtext)
+            if isinstance(p, tuple):
+                col.count('generated.' + p[0])
+                if p[0] != 'codegen-error' or p[1] not in TATSU_NAMES():
+                    col.violation(f'oracle:codegen:{p[0]}:{p[1]}:{gclass}', 'generating the parser of a grammar that compiles raised a foreign exception / hung',
+                                  {'oracle': 'only TatSu exceptions', 'grammar': gtext, 'outcome': p})
+                p = None
+        commenty = any(k in g['directives'] for k in ('comments', 'eol_comments'))
         for k in range(ninputs):
-            text = ''.join(rng.choice(UNI) for _ in range(rng.randint(0, 8)))
+            if getattr(col, 'hangs', 0) >= 2:
+                # every further hang costs its full deadline: two shrunk reports per shard are kept, the check has failed anyway
+                col.count('engine.stopped-after-two-hangs')
+                return
+            text = gen_text(rng, commenty and rng.random() < 0.7)
             if k == 0:
                 text = ''
-            for kind in ('text', 'buffer'):
-                for pinfo in (False, True):
-                    case = {'grammar': gtext, 'text': text, 'input': kind, 'parseinfo': pinfo}
-                    col.case(['eng', gtext, text, kind, pinfo], nontrivial=bool(text))
-
-                    def run():
-                        inp = text if kind == 'text' else Buffer(text)
-                        try:
-                            m.parse(inp, parseinfo=pinfo)
-                            return ('ok', None)
-                        except TatSuException as e:
-                            return ('tatsu', e)
-                        except RecursionError as e:
-                            return ('recursion', e)
-                        except Exception as e:  # noqa
-                            return ('foreign', e)
-                    out = R.with_timeout(run, 5)
-                    col.count(f'engine.{kind}.{out[0]}')
-                    if out[0] == 'timeout':
-                        col.violation(f'oracle:hang:{kind}', 'a parse does not terminate',
-                                      {'oracle': 'no hang', 'case': case})
-                    elif out[0] == 'foreign':
-                        col.violation(f'oracle:foreign-exception:{kind}:{type(out[1]).__name__}',
-                                      f'parse raised {type(out[1]).__name__}, not a TatSu error',
-                                      {'oracle': 'only TatSu exceptions', 'case': case, 'exception': repr(out[1])[:300]})
-                    elif out[0] == 'recursion':
-                        col.violation(f'oracle:recursion:{kind}', 'unbounded recursion on a non-left-recursive grammar',
-                                      {'oracle': 'bounded recursion', 'case': case})
-                    elif out[0] == 'tatsu':
-                        check_failure(col, out[1], text, kind, case)
+            variants = [{'input': kind, 'parse_kw': {'parseinfo': pinfo}} for kind in ('text', 'buffer') for pinfo in (False, True)]
+            # configurations: scanner settings handed to the input object / to parse(), engine settings, another start rule
+            ctext = gen_text(rng, True) if k else ''
+            extra = []
+            for kind in ('buffer', 'textlines', 'text'):
+                st = scanner_settings(rng)
+                kw = dict(engine_settings(rng, g), parseinfo=rng.random() < 0.5)
+                if kind == 'text':
+                    kw.update(st)
+                    extra.append({'input': kind, 'parse_kw': kw})
+                else:
+                    extra.append({'input': kind, 'input_cfg': st, 'parse_kw': kw})
+            for v in variants:
+                col.case(['eng', gtext, text, repr(v)], nontrivial=bool(text))
+                judge(col, m, 'model', g, gtext, text, v)
+            for v in extra:
+                col.case(['eng', gtext, ctext, repr(v)], nontrivial=bool(ctext))
+                judge(col, m, 'model', g, gtext, ctext, v)
+            if p is not None:
+                for v, t in ((rng.choice(variants), text), (rng.choice(extra), ctext)):
+                    col.case(['gen', gtext, t, repr(v)], nontrivial=bool(t))
+                    judge(col, p, 'generated', g, gtext, t, v)
 
 
 _TN = None
@@ -202,6 +561,9 @@ def mutate(rng, s):
     return s[:i] + rng.choice("'\"/\\(){}[]|~@:=;") + s[i + 1:]
 
 
+_mutated_ok: dict = {}
+
+
 def shard_compile(col, shard_i, n):
     import tatsu
     from tatsu.exceptions import TatSuException
@@ -211,14 +573,19 @@ def shard_compile(col, shard_i, n):
         if rng.random() < 0.3:
             g['rules'] = [(nm, ['name'] if rng.random() < 0.2 else d, e) for nm, d, e in g['rules']]
             g['keywords'] = ['if', 'then']
-        text = E.grammar_text(g)
+        if rng.random() < 0.4:
+            g['rules'] = [(nm, d, with_metas(rng, e)) for nm, d, e in g['rules']]
+            shape_rules(rng, g)
+            if rng.random() < 0.5:
+                g['directives'].update(scanner_settings(rng, directive=True))
+        text = render(g)
         for _k in range(rng.randint(1, 3)):
             text = mutate(rng, text)
         col.case(['compile', text], nontrivial=True)
 
         def run():
             try:
-                tatsu.compile(text, name='M')
+                _mutated_ok[text] = tatsu.compile(text, name='M')
                 return ('ok', None)
             except TatSuException as e:
                 return ('tatsu', e)
@@ -228,6 +595,17 @@ def shard_compile(col, shard_i, n):
                 return ('foreign', e)
         out = R.with_timeout(run, 10)
         col.count('compile.' + out[0])
+        if out[0] == 'ok' and text in _mutated_ok:
+            # a grammar text near the language that IS accepted: parsing with it is held to the same standard
+            m = _mutated_ok.pop(text)
+            try:
+                lrec = any(getattr(r, 'is_lrec', False) for r in m.rules)
+            except Exception:  # noqa
+                lrec = False
+            for t in ('', ''.join(rng.choice(UNI + COMMENT_BITS) for _ in range(rng.randint(1, 8)))):
+                for v in ({'input': 'text', 'parse_kw': {}}, {'input': 'buffer', 'parse_kw': {'parseinfo': True}}):
+                    col.case(['mutated-parse', text, t, repr(v)], nontrivial=bool(t))
+                    judge(col, m, 'mutated', None, text, t, v, lrec=lrec)
         if out[0] in ('timeout', 'foreign', 'recursion'):
             small = text
             exname = type(out[1]).__name__ if out[0] != 'timeout' else 'timeout'
@@ -293,10 +671,16 @@ def shard_undefined(col, shard_i):
 def main():
     chk = Check(PID)
     chk.rule = ('M1: the five character-level matchers on ALL strings over {1 _ + - . e a superscript-2 arabic-3 space} up to length 4 (quick) / 5 '
-                '(thorough) at every position, implementation vs Matchers.v; engine: random grammars with @meta expressions and whitespace/comment '
-                'patterns that can match empty x unicode texts (controls, CR/LF/CRLF, LS, non-decimal digits, astral) x {TextLines, Buffer} x '
-                '{parseinfo}; compile: generated grammar texts with 1-3 random insertions/deletions/transpositions. Checked: exception class, hang, '
-                'recursion, failure position/line info, message renders.')
+                '(thorough) at every position, implementation vs Matchers.v; engine: random grammars with @meta expressions and $->, rule headers in '
+                'every accepted shape (decorators @name/@isname/@nomemo/@nostak alone and combined on any rule incl. the start rule, rule parameters, '
+                ': := ::= definitions, @override re-definitions, based rules) and directives (whitespace/comments/eol_comments patterns from pools '
+                'that include every way of matching the EMPTY string, nameguard, ignorecase, namechars, left_recursion, memoization, parseinfo) x '
+                'unicode texts (controls, CR/LF/CRLF, LS, non-decimal digits, astral, comment openers/closers) x {str, TextLines object, legacy Buffer '
+                'object} x {parseinfo} x scanner settings handed to the input object or to parse() x engine settings (memoization, left_recursion, '
+                'start=<another rule>, the console tracer) x {model.parse, the generated parser class (one reused instance)}; compile: generated grammar texts (plain and '
+                'with rule shapes / directives) with 1-3 random insertions/deletions/transpositions, and parses with the mutated texts that are '
+                'accepted. Checked: exception class, hang, recursion, failure position/line info, message renders. Failing configurations are shrunk '
+                '(settings dropped, text halved) before the signature is taken.')
     chk.trusted += ['Python int()/float() accept the literals [+-]?D(_?D)* with D = str.isdecimal (checked on every matched slice by M1)',
                     'unicode predicates are oracles per string; the engine-level and compile-level parts are implementation oracles']
     chk.coq()
@@ -305,12 +689,12 @@ def main():
     if ok:
         if chk.quick:
             vlib.run_sharded(chk, shard_matchers, 14, extra=(14, 4))
-            vlib.run_sharded(chk, shard_engine, 14, extra=(14, 8))
+            vlib.run_sharded(chk, shard_engine, 14, extra=(60, 8))
             vlib.run_sharded(chk, shard_compile, 14, extra=(60,))
             vlib.run_sharded(chk, shard_undefined, 1, procs=1)
         else:
             vlib.run_sharded(chk, shard_matchers, 28, extra=(28, 5))
-            vlib.run_sharded(chk, shard_engine, 28, extra=(40, 10))
+            vlib.run_sharded(chk, shard_engine, 28, extra=(150, 10))
             vlib.run_sharded(chk, shard_compile, 28, extra=(400,))
             vlib.run_sharded(chk, shard_undefined, 1, procs=1)
         chk.obligation('M1: matchers vs Matchers.v (exhaustive small scope)', 'correspondence',
